@@ -1,11 +1,11 @@
 """Shared end-to-end machinery for the generation properties (C03-C07, C10, C19): run the
 corpus and generated projects, and hand each property the parsed files of both sides."""
 import json, os
-from .. import core, e2e, genproj, ninja_parse
+from .. import core, e2e, genproj, ninja_parse, directed
 
 def load_cases(rng, tier, n_quick, n_thorough, focus=None, mix=2):
     corpus = json.load(open(os.path.join(core.VERIF, "corpus", "upstream.json")))
-    cases = [(f, {}) for f in corpus.values()]
+    cases = [(f, {}) for f in corpus.values()] + directed.cases()
     extra = os.path.join(core.VERIF, "corpus", "regressions.json")
     if os.path.exists(extra):
         cases += [(c["files"], c["cli"]) for c in json.load(open(extra))]
